@@ -244,13 +244,13 @@ impl Driver {
         let mut th = DefaultHasher::new();
         loop {
             // wait until nobody runs
-            let deadline = Instant::now() + Duration::from_secs(20);
+            let deadline = Instant::now() + Duration::from_secs(120);
             let mut n = 0;
             while sched.turn.load(Ordering::Acquire) != NOBODY {
                 spin(&mut n);
                 if n % 4096 == 0 && Instant::now() > deadline {
                     let g = sched.m.lock().unwrap();
-                    deadlock = Some(format!("thread {} did not reach a scheduling point within 20 s after {:?} (blocked outside the scheduler's control)", sched.turn.load(Ordering::Acquire), g.last_label));
+                    deadlock = Some(format!("thread {} did not reach a scheduling point within 120 s after {:?} (blocked outside the scheduler's control)", sched.turn.load(Ordering::Acquire), g.last_label));
                     break;
                 }
             }
